@@ -3,6 +3,7 @@ import Driver.C14
 import Driver.Crypto
 import Driver.Gss
 import Driver.Pac
+import Driver.Replay
 
 open Driver
 
@@ -16,6 +17,7 @@ def dispatch (line : String) : String :=
       else if op.startsWith "cr." then Crypto.handle op args
       else if op.startsWith "gss." then Gss.handle op args
       else if op.startsWith "pac." then Pac.handle op args
+      else if op.startsWith "rc." then Replay.handle op args
       else none
     match r with
     | some s => s
